@@ -79,6 +79,9 @@ func mkHandler(id int, b refmodel.Behaviour, log *[]refmodel.Event) rux.HandlerF
 				c.AbortWithStatus(abortCode, "no")
 			case refmodel.SStatus:
 				c.SetStatus(201)
+			case refmodel.SRedispAbort:
+				c.Req.URL.Path = "/inner"
+				c.Router().HandleContext(c)
 			case refmodel.SWrite:
 				c.WriteString("x")
 			case refmodel.SProbe:
@@ -131,6 +134,10 @@ func runChain(sh chainShape, table map[byte]refmodel.Behaviour) (obs chainObs, b
 	})
 	if regPanic != nil {
 		return
+	}
+	if strings.Contains(sh.Beh, "r") {
+		// the route a handler may re-dispatch to: one aborting middleware, a main handler that must never start
+		r.GET("/inner", mkHandler(101, refmodel.Behaviour{}, &log), mkHandler(100, refmodel.Behaviour{refmodel.SProbe, refmodel.SAbort, refmodel.SProbe}, &log))
 	}
 	w := httptest.NewRecorder()
 	obs.pv = try(func() { r.ServeHTTP(w, httptest.NewRequest("GET", "/x", nil)) })
